@@ -18,6 +18,8 @@ import (
 	"errors"
 	"fmt"
 	"os"
+	"unicode"
+	"unicode/utf8"
 )
 
 type Grammar struct {
@@ -80,7 +82,7 @@ func consistent(g *Grammar) (err error) {
 			if s == "empty" || s == "error" {
 				continue
 			}
-			if s[0] >= 'A' && s[0] <= 'Z' {
+			if r, _ := utf8.DecodeRuneInString(s); unicode.IsUpper(r) {
 				fmt.Fprintf(os.Stderr, "error: undefined symbol %q used in productions %q\n", s, in)
 				err = errUndefined
 			} else {
